@@ -194,7 +194,66 @@ def run(ctx):
                      correspondence="storage-server-test-and-set-vs-model")
     ctx.trace(len(terms) - len(bad))
     answer_cases(ctx)
+    verdict_cases(ctx)
     grid_cases(ctx)
+
+
+def verdict_cases(ctx):
+    """'A publisher that meets a different version reports an uncoordinated-write error' on the real Publish bookkeeping
+    (_connection_problem / _got_write_answer / _push / _failure, driven as in C47), whatever else goes wrong at the same time:
+    refused writes combined with lost connections, down to fewer than k -- or zero -- writers left."""
+    from props import c47
+    ctx.correspondence("publisher-verdict-vs-model")
+    servers = [c47.Srv(i) for i in range(6)]
+    terms, info = [], []
+    for i in range(ctx.n(120, 1200)):
+        r = ctx.rng("verdict", i)
+        k = r.choice([1, 2, 3, 3, 4])
+        nw = r.randrange(1, 9)
+        seen, writers = set(), []
+        for _ in range(nw):
+            key = (r.randrange(0, 6), r.randrange(0, 5))
+            if key not in seen:
+                seen.add(key)
+                writers.append(c47.W(key[0], servers[key[1]]))
+        nref = r.randrange(1, len(writers) + 1)                  # at least one write is refused: another version was met
+        nerr = r.randrange(0, len(writers) - nref + 1) if i % 3 else len(writers) - nref    # every third case: everything else is lost
+        kinds = ["ref"] * nref + ["err"] * nerr + ["ok"] * (len(writers) - nref - nerr)
+        r.shuffle(kinds)
+        answers = []
+        for w, kd in zip(writers, kinds):
+            if kd == "err":
+                answers.append((w, ("err",)))
+            elif kd == "ref":
+                answers.append((w, ("ans", False, [(w.shnum, c47.other_checkstring(r))])))
+            else:
+                answers.append((w, ("ans", True, [(w.shnum, c47.OURS)])))
+        r.shuffle(answers)
+        out, _placed = c47.drive_unit(k, writers, answers)
+        case = {"k": k, "writers": [(w.shnum, w.server.i) for w in writers], "answers": [[(w.shnum, w.server.i), kd] for (w, _a), kd in zip(answers, [("err" if a[0] == "err" else ("ok" if a[1] else "refused")) for _w, a in answers])]}
+        ctx.case(repr(case), kind="verdict:%s" % out)
+        if out != "UncoordinatedWrite":
+            ctx.oracle_fail("met-other-version-without-ucwe", "a publisher had %d of its %d writes refused (the share held another version) and ended with %s instead of "
+                            "UncoordinatedWriteError (k=%d, %d connection errors)" % (nref, len(writers), out, k, nerr), case=case,
+                            expected="UncoordinatedWrite", observed=out)
+
+        def wt(w):
+            return "{| w_shnum := %s; w_server := %s |}" % (T.N(w.shnum), T.N(w.server.i))
+        ans_terms = []
+        for w, a in answers:
+            if a[0] == "err":
+                ans_terms.append("(%s, ConnError)" % wt(w))
+            else:
+                rd = T.lst(["{| r_shnum := %s; r_is_our_checkstring := %s |}" % (T.N(sh), T.boolean(cs == c47.OURS)) for sh, cs in a[2]])
+                ans_terms.append("(%s, Answered %s %s)" % (wt(w), T.boolean(a[1]), rd))
+        if out in ("Success", "UncoordinatedWrite", "NotEnoughServers"):
+            terms.append("outcome_eqb (publish_outcome %s %s %s) %s" % (T.N(k), T.lst([wt(w) for w in writers]), T.lst(ans_terms), out))
+            info.append(case)
+    bad = ctx.coq_check(["Model.Publish"], terms, tag="c12verdict")
+    for ix in bad:
+        ctx.mismatch("publisher-verdict-differs", "Publish bookkeeping and Model/Publish.v disagree on the verdict", case=info[ix],
+                     correspondence="publisher-verdict-vs-model")
+    ctx.trace(len(terms) - len(bad))
 
 
 def answer_cases(ctx):
